@@ -14,6 +14,10 @@ E1 (bounded exhaustive enumeration against mc/ref_c14.py, which shares no code w
   order      for every w: the whole battery of containment queries on w asked in six orders (multi-
              factor u before strict u, descending, start indices descending, per-permutation with
              its pin words sorted / reversed), each from a re-executed library
+  scale      long periodic words (spirals, zigzags, other period-4 runs; |w| <= 14 quick / 20 thorough,
+             strict u with tails up to 9, two-factor u): occurrences_sp against Lemma 3.12 directly,
+             occurrences/contains against the letter test; thorough: spirals behind a rigid prefix
+             against brute-force containment with all pin words of the pattern enumerated
   interleave two live pinword_occurrences generators advanced alternately
   history    BFS over histories that interleave the direct entry points (pinword_to_perm, quadrant,
              factor_pinword, occurrences/contains, sp_to_m/m_to_sp, pinwords_of_length) with
@@ -585,6 +589,31 @@ class Known:
         size = sum(len(v) if hasattr(v, "__len__") else 1 for v in case.values())
         if key not in self.first or size < self.first[key][0]:
             self.first[key] = (size, case, detail)
+
+    def payload(self):
+        return {"count": {"%s\t%s" % k: v for k, v in self.count.items()},
+                "first": {"%s\t%s" % k: v for k, v in self.first.items()}}
+
+
+def report_known(ctx, payloads):
+    """One representative (the smallest) per (sub, signature) is reported by the parent; the counts
+    of all shards are added up."""
+    total, first = {}, {}
+    for pl in payloads:
+        if not pl:
+            continue
+        for k, v in pl["count"].items():
+            total[k] = total.get(k, 0) + v
+        for k, v in pl["first"].items():
+            if k not in first or v[0] < first[k][0]:
+                first[k] = v
+    for k in sorted(first):
+        sub, sig = k.split("\t")
+        _, case, detail = first[k]
+        ctx.violation(sub, case, detail, sig=sig)
+        ctx.bump("sig:" + sig, total[k] - 1)
+        ctx.nviol += total[k] - 1
+        ctx.bump("known_cases_" + sub, total[k])
 
 
 def shard_contain(shard):
@@ -1205,6 +1234,203 @@ def shard_order(shard):
 
 
 # --------------------------------------------------------------------------------------------
+# scale: long PERIODIC words (spirals, zigzags, the other period-4 runs), fully enumerated
+# --------------------------------------------------------------------------------------------
+# Exhaustive enumeration stops at length 5-7; a search that mishandles self-overlapping direction
+# runs needs a factor of >= 6 letters inside a word of >= 10.  The family:
+#   tails  T(m)   = every prefix, of length 1..m, of the infinite repetition of a primitive period
+#                   (period 2: the 8 zigzags; period 4: the 8 spirals and, in the thorough tier, the 16
+#                   other alternating words of length 4)
+#   words  w      = p + c + t   with p in PRE (the empty word and the four numerals), c any of the 8
+#                   letters, t in T(Lmax - |p| - 1) or empty, whenever that is a pin word
+#   strict u      = q + t       with q a numeral, t in T(9) or empty
+#   two-factor u' = r + u       with r a numeral
+# Oracles: (sp) pinword_occurrences_sp against Lemma 3.12 evaluated directly on the reference
+# quadrants, for every pair (default start) and, where the tail of u has >= 3 letters (shorter runs
+# cannot overlap themselves) and occurs in w at all, for every start index; (occ) pinword_occurrences / pinword_contains / pinword_contains_sp on those candidate
+# pairs, for u and for the two-factor u', against the factor-by-factor letter test (gap = source
+# paper, no gap = deviation model of the known finding); (perm, thorough) on a thinned family of
+# spirals behind a rigid prefix the geometric ground truth: perm(u) <= perm(w) by brute force  <=>
+# some pin word of perm(u) (all of them enumerated by the reference) is found by pinword_contains.
+
+SCALE_U = []
+SCALE_SWEEP = [True]     # every start index on candidate pairs (thorough tier)
+
+
+def scale_periods(all_periods):
+    ps = F.alternating_periods()
+    return ps if all_periods else [p for p in ps if len(p) == 2 or F.is_spiral(p)]
+
+
+def scale_tails(periods, m):
+    out = {""}
+    for p in periods:
+        t = p * (m // len(p) + 2)
+        for k in range(1, m + 1):
+            out.add(t[:k])
+    return out
+
+
+def scale_words(periods, lmax):
+    out = set()
+    for p in [""] + list(F.QUADS):
+        for c in F.ALPHABET:
+            for t in scale_tails(periods, lmax - len(p) - 1):
+                w = p + c + t
+                if F.is_pinword(w):
+                    out.add(w)
+    return sorted(out, key=lambda w: (len(w), w))
+
+
+def scale_us(periods, k):
+    return sorted((q + t for q in F.QUADS for t in scale_tails(periods, k)), key=lambda u: (len(u), u))
+
+
+def def_sp(w, q, u, start=0):
+    """Lemma 3.12, literally."""
+    k = len(u)
+    return [i for i in range(start, len(w)) if q[i] == u[0] and w[i + 1:i + k] == u[1:]]
+
+
+def check_scale_pair(part, PW, w, q, u, known, every_start=None, naive=False):
+    """One strict u against one long w.  Returns True if the pair is a candidate (tail occurs)."""
+    exp = def_sp(w, q, u)
+    try:
+        got = list(PW.pinword_occurrences_sp(w, u))
+    except Exception as exc:  # noqa
+        part.violation("scale_sp", {"w": w, "u": u, "start": None}, {"exception": repr(exc)})
+        got = exp
+    if got != exp and set(got) != set(exp):
+        part.violation("scale_sp", {"w": w, "u": u, "start": None}, {"expected": exp, "got": got})
+    cand = len(u) >= 4 and u[1:] in w[1:]
+    if every_start is None and not cand:
+        return cand
+    for start in (range(1, len(w) + 1) if (every_start or (every_start is None and SCALE_SWEEP[0])) else ()):
+        e = [i for i in exp if i >= start]
+        try:
+            g = list(PW.pinword_occurrences_sp(w, u, start))
+        except Exception as exc:  # noqa
+            part.violation("scale_sp", {"w": w, "u": u, "start": start}, {"exception": repr(exc)})
+            continue
+        if g != e and set(g) != set(e):
+            part.violation("scale_sp", {"w": w, "u": u, "start": start}, {"expected": e, "got": g})
+    try:
+        cs = PW.pinword_contains_sp(w, u)
+        if cs != bool(exp):
+            part.violation("scale_contains_sp", {"w": w, "u": u}, {"expected": bool(exp), "got": cs})
+    except Exception as exc:  # noqa
+        part.violation("scale_contains_sp", {"w": w, "u": u}, {"exception": repr(exc)})
+    for r in ("",) + tuple(F.QUADS):
+        uu = r + u
+        if naive:
+            P = F.letter_occurrences(w, uu, True, q)
+            D = F.letter_occurrences(w, uu, False, q)
+        elif r == "":
+            P = D = [(i,) for i in exp]
+        else:
+            # factor r (one numeral) at i, then the strict factor at s >= i + 1; the source paper
+            # forbids s == i + 1 when w[s] is a direction letter
+            D = [(i, s_) for i in range(len(w)) if q[i] == r for s_ in exp if s_ > i]
+            P = [(i, s_) for (i, s_) in D if not (s_ == i + 1 and w[s_] in F.DIRS)]
+        case = {"w": w, "u": uu}
+        try:
+            C = list(PW.pinword_occurrences(w, uu))
+            if C != P and set(C) != set(P):
+                if set(C) == set(D):
+                    known(part, "scale_occ", SIG_OCC, case, {"expected": P, "got": C})
+                else:
+                    part.violation("scale_occ", case, {"expected": P, "got": C, "deviation_model": D})
+            c = PW.pinword_contains(w, uu)
+            if c != bool(P):
+                if c == bool(D):
+                    known(part, "scale_contains", SIG_CON, case, {"expected": bool(P), "got": c})
+                else:
+                    part.violation("scale_contains", case, {"expected": bool(P), "got": c})
+        except Exception as exc:  # noqa
+            part.violation("scale_occ", case, {"exception": repr(exc)})
+    return cand
+
+
+def shard_scale(shard):
+    part = Partial()
+    known = Known()
+    PW = _PW()
+    npairs = ncand = 0
+    for w in shard:
+        q = F.quadrants(w)
+        for u in SCALE_U:
+            if check_scale_pair(part, PW, w, q, u, known):
+                ncand += 1
+        npairs += len(SCALE_U)
+    part.add(npairs, ncand)
+    part.bump("scale_pairs", npairs)
+    part.bump("scale_candidate_pairs", ncand)
+    part.bump("scale_words", len(shard))
+    if shard and len(shard[-1]) >= 12:
+        w = shard[-1]
+        q = F.quadrants(w)
+        best = max(SCALE_U, key=lambda u: (len(def_sp(w, q, u)) > 0, len(u)))
+        part.sample({"sub": "scale", "w": w, "u": best, "occurrences_sp": def_sp(w, q, best)}, cap=1)
+    return part, known.payload()
+
+
+def scale_perm_family(rigid_numerals):
+    """(w, u): u = rp + q + T[:5], w = rp + c + T[:9]; rp = numeral + first three letters of a spiral
+    starting with U, T a spiral, q and c numerals."""
+    spirals = [p for p in F.alternating_periods() if F.is_spiral(p)]
+    out = []
+    for rq in rigid_numerals:
+        for rs in [s for s in spirals if s[0] == "U"]:
+            rp = rq + rs[:3]
+            for t in spirals:
+                tt = t * 3
+                for q in F.QUADS:
+                    u = rp + q + tt[:5]
+                    if not F.is_pinword(u):
+                        continue
+                    ws = [rp + c + tt[:9] for c in F.QUADS]
+                    out.append((u, [w for w in ws if F.is_pinword(w)]))
+    return out
+
+
+def check_scale_perm(part, PW, w, u, us, known):
+    pw_, pu = F.perm_of(w), F.perm_of(u)
+    exp = F.contains_perm(pw_, pu)
+    case = {"w": w, "u": u}
+    try:
+        found = [x for x in us if PW.pinword_contains(w, x)]
+    except Exception as exc:  # noqa
+        part.violation("scale_perm", case, {"exception": repr(exc)})
+        return
+    got = bool(found)
+    if got != exp:
+        q = F.quadrants(w)
+        dev = any(bool(F.letter_occurrences(w, x, False, q)) for x in us)
+        det = {"perm_of_w": pw_, "perm_of_u": pu, "expected_contained": exp, "pin_words_of_perm_u": len(us),
+               "found": found[:4]}
+        if got == dev:
+            known(part, "scale_perm", SIG_CON, case, det)
+        else:
+            part.violation("scale_perm", case, det)
+
+
+def shard_scale_perm(shard):
+    part = Partial()
+    known = Known()
+    PW = _PW()
+    for u, ws in shard:
+        us = F.pin_words_of_perm(F.perm_of(u))
+        if u not in us:
+            raise RuntimeError("reference self test: %r is not among the pin words of its permutation" % u)
+        for w in ws:
+            check_scale_perm(part, PW, w, u, us, known)
+        part.add(len(ws), len(ws))
+        part.bump("scale_perm_pairs", len(ws))
+        part.bump("scale_perm_pin_words_enumerated", len(us))
+    return part, known.payload()
+
+
+# --------------------------------------------------------------------------------------------
 # run
 # --------------------------------------------------------------------------------------------
 
@@ -1333,23 +1559,7 @@ def run(ctx, only=None):
             for p in prefixes(n, plen):
                 shards.append((n, p, maxu))
         payloads = ctx.pmap(shard_contain, shards)
-        # known finding: one representative (the smallest) per (sub, signature), counts added up
-        total, first = {}, {}
-        for pl in payloads:
-            if not pl:
-                continue
-            for k, v in pl["count"].items():
-                total[k] = total.get(k, 0) + v
-            for k, v in pl["first"].items():
-                if k not in first or v[0] < first[k][0]:
-                    first[k] = v
-        for k in sorted(first):
-            sub, sig = k.split("\t")
-            _, case, detail = first[k]
-            ctx.violation(sub, case, detail, sig=sig)
-            ctx.bump("sig:" + sig, total[k] - 1)
-            ctx.nviol += total[k] - 1
-            ctx.bump("known_cases_" + sub, total[k])
+        report_known(ctx, payloads)
         ctx.bounds["contain"] = [{"w_len": n, "u_len_max": m, "perm_len_max": m}
                                  for n, m in plan]
         ctx.section("contain", evaluations=ctx.evals - e0,
@@ -1368,6 +1578,30 @@ def run(ctx, only=None):
                                "words": [{"w_len": n, "u_len_max": m, "perm_len_max": m} for n, m in oplan],
                                "reset": "library re-executed before every (w, order)"}
         ctx.section("order", evaluations=ctx.evals - e0, queries=ctx.counters.get("order_queries", 0))
+
+    if want("scale"):
+        e0 = ctx.evals
+        periods = scale_periods(not quick)
+        lmax = 12 if quick else 20
+        SCALE_U[:] = scale_us(periods, 9)
+        SCALE_SWEEP[0] = not quick
+        words = scale_words(periods, lmax)
+        payloads = ctx.pmap(shard_scale, [c for c in split(words, 64 if quick else 256) if c])
+        report_known(ctx, payloads)
+        ctx.bounds["scale"] = {"periods": periods, "w_len_max": lmax, "words": len(words),
+                               "strict_u": len(SCALE_U), "u_tail_len_max": 9,
+                               "two_factor_u": "numeral + strict u%s, on pairs where the tail of u has >= 3 letters "
+                                               "and occurs in w" % ("" if quick else ", and every start index")}
+        if not quick:
+            fam = scale_perm_family(F.QUADS)
+            payloads = ctx.pmap(shard_scale_perm, [c for c in split(fam, 128) if c])
+            report_known(ctx, payloads)
+            ctx.bounds["scale_perm"] = {"patterns_u": len(fam), "pairs": sum(len(ws) for _, ws in fam),
+                                        "u": "rp + numeral + T[:5]", "w": "rp + numeral + T[:9]",
+                                        "rp": "numeral + first 3 letters of a spiral starting with U",
+                                        "T": "the 8 spirals"}
+        ctx.section("scale", evaluations=ctx.evals - e0, words=len(words), strict_u=len(SCALE_U),
+                    candidates=ctx.counters.get("scale_candidate_pairs", 0))
 
     if want("interleave"):
         e0 = ctx.evals
@@ -1439,7 +1673,11 @@ def replay(ctx, rec):
         check_m(ctx, PW, case["word"])
     elif sub in ("occurrences", "contains_pair", "occurrences_sp", "contains_sp"):
         w, u = case["w"], case["u"]
-        check_pair(ctx, PW, w, u, F.geometric_occurrences(w, u), F.letter_occurrences(w, u, False), known)
+        tmp = Partial()
+        check_pair(tmp, PW, w, u, F.geometric_occurrences(w, u), F.letter_occurrences(w, u, False), known)
+        for v in tmp.viols:      # only the recorded observer
+            if v["sub"] == sub and ("start" not in case or v["case"].get("start") == case["start"]):
+                ctx.violation(v["sub"], v["case"], v["detail"], sig=v["sig"])
     elif sub == "reflect":
         w, p = case["w"], tuple(case["perm"])
         us = [u for u in ref_words(len(p)) if F.perm_of(u) == p]
@@ -1458,6 +1696,17 @@ def replay(ctx, rec):
                 ctx.violation("reflect", case, det)
     elif sub == "interleave":
         check_interleave(ctx, PW, case["w"], case["u1"], case["u2"])
+    elif sub in ("scale_sp", "scale_contains_sp", "scale_occ", "scale_contains"):
+        w, u = case["w"], case["u"]
+        fs = F.factors(u)
+        tmp = Partial()
+        check_scale_pair(tmp, PW, w, F.quadrants(w), fs[-1], known, every_start=True, naive=True)
+        for v in tmp.viols:      # only the recorded query
+            if v["sub"] == sub and v["case"].get("u") == u and v["case"].get("start") == case.get("start"):
+                ctx.violation(v["sub"], v["case"], v["detail"], sig=v["sig"])
+    elif sub == "scale_perm":
+        w, u = case["w"], case["u"]
+        check_scale_perm(ctx, PW, w, u, F.pin_words_of_perm(F.perm_of(u)), known)
     elif sub == "order":
         build_globals(max(case["maxu"], 3))
         run_order(ctx, case["w"], case["order"], case["maxu"], _silent_known)
